@@ -109,6 +109,14 @@ type C18SP struct {
 func (p C18SP) String() string { return p.Name }
 
 type C18S3 struct{ A, B string }
+
+// a struct with an unexported field (reflect.DeepEqual may read it, Interface() on it panics)
+type C18SU struct {
+	A int
+	b string
+}
+type C18NBytes []byte
+type C18NArr4 [4]byte
 type C18F0 func()
 type C18F1 func(int) int
 
@@ -134,7 +142,7 @@ var c18base = map[string]reflect.Type{
 	"NF32": reflect.TypeOf(C18NF32(0)), "NStr": reflect.TypeOf(C18NStr("")), "NBool": reflect.TypeOf(C18NBool(false)),
 	"Level": reflect.TypeOf(C18Level(0)), "ULevel": reflect.TypeOf(C18ULevel(0)), "Temp": reflect.TypeOf(C18Temp(0)), "Errno": reflect.TypeOf(C18Errno(0)),
 	"S1": reflect.TypeOf(C18S1{}), "S2": reflect.TypeOf(C18S2{}), "SF": reflect.TypeOf(C18SF{}), "SB": reflect.TypeOf(C18SB{}),
-	"SN": reflect.TypeOf(C18SN{}), "SS": reflect.TypeOf(C18SS{}), "E0": reflect.TypeOf(C18E0{}), "SP": reflect.TypeOf(C18SP{}), "S3": reflect.TypeOf(C18S3{}),
+	"SN": reflect.TypeOf(C18SN{}), "SS": reflect.TypeOf(C18SS{}), "E0": reflect.TypeOf(C18E0{}), "SP": reflect.TypeOf(C18SP{}), "S3": reflect.TypeOf(C18S3{}), "SU": reflect.TypeOf(C18SU{}), "NBytes": reflect.TypeOf(C18NBytes(nil)), "NArr4": reflect.TypeOf(C18NArr4{}),
 	"F0": reflect.TypeOf(C18F0(nil)), "F1": reflect.TypeOf(C18F1(nil)), "func()": reflect.TypeOf(func() {}),
 }
 
@@ -409,7 +417,11 @@ func c18build(n *c18node, h c18heap) reflect.Value {
 		v.SetString(string(vh.UnHex(n.a[0])))
 	case "st":
 		for i, k := range n.kids {
-			v.Field(i).Set(c18build(k, h))
+			f := v.Field(i)
+			if !f.CanSet() { // unexported field
+				f = reflect.NewAt(f.Type(), unsafe.Pointer(f.UnsafeAddr())).Elem()
+			}
+			f.Set(c18build(k, h))
 		}
 	case "ar":
 		for i, k := range n.kids {
@@ -470,6 +482,15 @@ func c18build(n *c18node, h c18heap) reflect.Value {
 		v.Set(c18build(n.kids[0], h))
 	case "fn":
 		code, env := int(vh.I64(n.a[0])), int(vh.I64(n.a[1]))
+		ckey := "fn" + n.ty + "/" + n.a[0] + "/" + n.a[1]
+		if o, ok := h[ckey]; ok && code == 3 {
+			return o
+		}
+		defer func() {
+			if h != nil && code == 3 {
+				h[ckey] = v
+			}
+		}()
 		var f interface{}
 		switch {
 		case t.NumIn() == 0 && code == 1:
@@ -632,6 +653,7 @@ func (e *c18expr) build(h c18heap) Expr {
 }
 
 type c18op struct {
+	mutate   bool // c18.mu: every input after the first is the FIRST object mutated in place
 	variadic bool
 	elemName string
 	elemT    reflect.Type
@@ -651,6 +673,7 @@ func c18parse(toks []string) *c18op {
 		op.tyNames = append(op.tyNames, name)
 		op.types = append(op.types, c18type(name))
 	}
+	op.mutate = toks[0] == "c18.mu"
 	if toks[0] == "c18.evv" {
 		op.variadic = true
 		op.elemName = strings.SplitN(p.next(), ":", 2)[0]
@@ -697,6 +720,9 @@ func (op *c18op) print() string {
 	b := []string{"c18.ev", strconv.Itoa(len(op.types))}
 	if op.variadic {
 		b[0] = "c18.evv"
+	}
+	if op.mutate {
+		b[0] = "c18.mu"
 	}
 	tdesc := func(name string, t reflect.Type) string {
 		impls := "-"
@@ -752,7 +778,28 @@ func c18input(t reflect.Type, a c18arg, h c18heap) reflect.Value {
 	if !a.isNil {
 		in.Set(c18build(a.n, h))
 	}
-	return in
+	return c18asArg(in)
+}
+
+var (
+	c18mf  = map[reflect.Type]reflect.Value{}
+	c18got reflect.Value
+)
+
+// c18asArg passes v through a reflect.MakeFunc function of signature func(T) and returns the Value its body receives:
+// exactly what goom's matcher is handed for a parameter of type T (not addressable, Kind Interface for interface types).
+func c18asArg(v reflect.Value) reflect.Value {
+	t := v.Type()
+	f, ok := c18mf[t]
+	if !ok {
+		f = reflect.MakeFunc(reflect.FuncOf([]reflect.Type{t}, nil, false), func(a []reflect.Value) []reflect.Value {
+			c18got = a[0]
+			return nil
+		})
+		c18mf[t] = f
+	}
+	f.Call([]reflect.Value{v})
+	return c18got
 }
 
 func c18res(b bool, err error) string {
@@ -877,7 +924,7 @@ func TestVerifC18(t *testing.T) {
 			out.Put(line.Idx, "%s", obs)
 			continue
 		}
-		if len(line.Toks) == 0 || (line.Toks[0] != "c18.ev" && line.Toks[0] != "c18.evv") {
+		if len(line.Toks) == 0 || (line.Toks[0] != "c18.ev" && line.Toks[0] != "c18.evv" && line.Toks[0] != "c18.mu") {
 			continue
 		}
 		obs := vh.Catch(func() string {
@@ -902,6 +949,9 @@ func c18run(op *c18op) string {
 	r := c18resolve(e, op.types)
 	if r != "ok" {
 		return "R=" + r
+	}
+	if op.mutate {
+		return c18runMutate(op, e, h)
 	}
 	var ins [][]reflect.Value
 	for i, tup := range op.inputs {
@@ -1304,4 +1354,60 @@ func (sc *c18script) run() string {
 		}
 	}
 	return "S=" + strings.Join(obs, ",") + " A=" + strings.Join(marks, ",")
+}
+
+// c18runMutate: one argument object (pointer / map / slice, possibly held in an interface) is evaluated, then mutated IN PLACE to
+// the next input term and evaluated again as the very same reflect.Value — what a mocked function sees when its caller reuses an
+// object.  Oracles are computed at each step on the current contents.
+func c18runMutate(op *c18op, e Expr, h c18heap) string {
+	T := op.types[0]
+	obj := c18input(T, op.inputs[0][0], h)
+	var ans, orc []string
+	for i, tup := range op.inputs {
+		if i > 0 {
+			tgt := obj
+			if tgt.Kind() == reflect.Interface {
+				tgt = tgt.Elem()
+			}
+			nv := c18build(tup[0].n, nil)
+			if nv.Type() != tgt.Type() || nv.IsNil() || tgt.IsNil() {
+				panic("c18: mutate needs non-nil values of one type")
+			}
+			switch tgt.Kind() {
+			case reflect.Ptr:
+				tgt.Elem().Set(nv.Elem())
+			case reflect.Map:
+				for _, k := range tgt.MapKeys() {
+					tgt.SetMapIndex(k, reflect.Value{})
+				}
+				for _, k := range nv.MapKeys() {
+					tgt.SetMapIndex(k, nv.MapIndex(k))
+				}
+			case reflect.Slice:
+				if nv.Len() != tgt.Len() {
+					panic("c18: mutate slice length")
+				}
+				reflect.Copy(tgt, nv)
+			default:
+				panic("c18: mutate kind")
+			}
+		}
+		in := []reflect.Value{obj}
+		ans = append(ans, c18eval(e, in))
+		one := *op
+		one.inputs = [][]c18arg{tup}
+		switch {
+		case op.e.kind == "eq":
+			orc = append(orc, c18eqOracle(&one, h, [][]reflect.Value{in}))
+		case op.e.kind == "in":
+			orc = append(orc, c18union(&one, h, [][]reflect.Value{in}))
+		}
+	}
+	res := "R=ok E=" + strings.Join(ans, ",") + " P=1"
+	if op.e.kind == "eq" {
+		res += " O=" + strings.Join(orc, ",")
+	} else if op.e.kind == "in" {
+		res += " U=" + strings.Join(orc, ",")
+	}
+	return res
 }
